@@ -14,9 +14,8 @@ variable {α : Type} [Zero α] [One α] [Add α] [Sub α] [Mul α] [Div α]
 def eulerStep (f : List α → α → List α) (h : α) (y : List α) (t : α) : List α :=
   vadd y (vscale h (f y t))
 
-/-- `solvers.euler`: `times` is re-generated by `linspace` in the code (same values in exact
-arithmetic); the step is `times[1] - times[0]`; the scan runs over `i = 0 .. n-2` evaluating the
-field at `times[i]`; row 0 is the initial population. -/
+/-- `solvers.euler`: the step is `times[1] - times[0]`; the scan runs over `i = 0 .. n-2` evaluating
+the field at `times[i]`; row 0 is the initial population. -/
 def euler (f : List α → α → List α) (y0 : List α) (times : List α) : List (List α) :=
   let h := times.getD 1 0 - times.getD 0 0
   let steps := times.take (times.length - 1)
